@@ -125,6 +125,18 @@ fn free_port(shard: u64, case: u64) -> Option<u16> {
     None
 }
 
+/// Removes a zone file; for a path that is a symbolic link the target goes and the link stays.
+fn remove_zone_file(path: &Path) {
+    match std::fs::read_link(path) {
+        Ok(target) => {
+            let _ = std::fs::remove_file(path.parent().unwrap_or(Path::new(".")).join(target));
+        }
+        Err(_) => {
+            let _ = std::fs::remove_file(path);
+        }
+    }
+}
+
 fn write_with_mtime(path: &Path, text: &str, mtime: SystemTime) -> std::io::Result<()> {
     let mut f = std::fs::File::create(path)?;
     f.write_all(text.as_bytes())?;
@@ -284,9 +296,18 @@ pub fn run(ctx: &Ctx, rep: &mut Report) {
         let mut trace: Vec<String> = Vec::new();
         // initial files and configuration
         let mut version = 1u32;
+        let mut linked = 0u32;
         for z in UNIVERSE.iter() {
             let kind = *rng.pick(&[FileKind::Valid, FileKind::Valid, FileKind::Valid, FileKind::ValidWarn, FileKind::Syntax, FileKind::Semantic, FileKind::SemanticWarn, FileKind::Missing]);
             h.files.insert(z.to_string(), ZoneFile { version, kind, touched: true, alt: false, staged: None, inc_broken: false });
+            // a third of the zones are configured through symbolic links (both of their paths):
+            // the data and its modification time are those of the link's target
+            if rng.chance(1, 3) {
+                let _ = std::fs::create_dir_all(dir.join("real"));
+                let _ = std::os::unix::fs::symlink(format!("real/{}", file_name(z)), dir.join(file_name(z)));
+                let _ = std::os::unix::fs::symlink(format!("../real/alt-{}", file_name(z)), dir.join(path_name(z, true)));
+                linked += 1;
+            }
             if kind != FileKind::Missing {
                 let _ = write_with_mtime(&dir.join(file_name(z)), &zone_text_inc(z, version, kind, &dir.join(format!("{}inc", z))), epoch);
             }
@@ -372,7 +393,7 @@ pub fn run(ctx: &Ctx, rep: &mut Report) {
                             f.touched = true;
                             let path = dir.join(path_name(z, f.alt));
                             if kind == FileKind::Missing {
-                                let _ = std::fs::remove_file(&path);
+                                remove_zone_file(&path);
                             } else {
                                 let _ = write_with_mtime(&path, &zone_text_inc(z, version, kind, &dir.join(format!("{}inc", z))), mtime);
                             }
@@ -533,6 +554,7 @@ pub fn run(ctx: &Ctx, rep: &mut Report) {
         }
         if !failed {
             rep.hist("histories-completed");
+            rep.hist_n("zones-configured-through-symlinks", linked as u64);
             if status != Some(0) && !valgrind {
                 rep.hist("daemon-exit-nonzero");
             }
